@@ -9,6 +9,12 @@ tied to pyyeti/ode/{solveunc,solveexp2,solvecdf,_base_ode_class}.py by the histo
 correspondence check (harness/props/c08.py): the real generators and the Lean machines are
 driven by the same request lists with the solver's own coefficients.
 
+Continued in `Props/C08Init.lean` (initial conditions for every option combination, `finalize`:
+equation of motion, partial histories), `Props/C08Inst.lean` (the real-uncoupled, SolveExp2 and
+complex-modal generators, transcribed statement by statement, ARE one-step machines),
+`Props/C08Api.lean` (call sequences on one solver object) and `Props/C08Branches.lean` (the
+branch table regenerated from the source).
+
 Reading of the property.  A history is a list of requests `send i f` (`gen.send((i, f))`) and
 `addon f` (`gen.send((-1, f))`).  It is *valid* (the documented protocol) when every send has
 `1 ≤ i ≤ last + 1` and every add-on follows a send.  "The force history in effect" is the
